@@ -345,8 +345,9 @@ def oracle(case, obs):
     t = sp['type']
 
     def bad(site, cls, what):
-        if t == 'nparr' and any(j[0] == 'p' for j in _key_labels(case)):
-            # kept finding: a tuple label is broadcast against a NumPy-array span by the fallback lookup
+        if t == 'nparr' and any(j[0] == 'p' for j in _key_labels(case)) and (cls.startswith('absent-label-') or cls == 'wrong-periods-written'):
+            # kept finding: a tuple label is broadcast against a NumPy-array span by the fallback lookup (the absent label
+            # aliases a period, or raises IndexError / ValueError instead of KeyError; a write through it lands on that period)
             site, cls = '_locate_period_in_span_fallback(ndarray span, tuple label)', 'broadcast-instead-of-KeyError'
         fails.append({'sig': 'C10|%s|%s' % (site, cls), 'what': what})
     if obs.get('timeout'):
